@@ -2687,6 +2687,13 @@ __GMP_DECLSPEC void mpz_out_raw_m(mpir_out_ptr, mpz_srcptr);
 
 /* End of MPIR.Net consumables */
 
+/* mp_bases[b].chars_per_bit_exactly is log(2)/log(b) rounded to a double, and the
+   table entry is below the real number for many bases; the product with a bit
+   count is rounded once more.  Digit-count estimates that must never be too
+   small add this margin, which exceeds both roundings for every base up to 255:
+   the estimate may then be 1 too big (as documented), never too small.  */
+#define CHARS_PER_BIT_MARGIN  1e-15
+
 /* For power of 2 bases this is exact.  For other bases the result is either
    exact or one too big.
 
@@ -2721,7 +2728,8 @@ __GMP_DECLSPEC void mpz_out_raw_m(mpir_out_ptr, mpz_srcptr);
           }                                                             \
         else                                                            \
           (result) = (size_t)                                           \
-            (__totbits * mp_bases[base].chars_per_bit_exactly) + 1;     \
+            (__totbits * (mp_bases[base].chars_per_bit_exactly          \
+                          + CHARS_PER_BIT_MARGIN)) + 1;                 \
       }                                                                 \
   } while (0)
 
